@@ -47,7 +47,7 @@ T = {
          "zero extension / truncation to the operation width (for every operation: no operand byte is read before the adjustment), unsigned comparison, NAND, addition modulo 2^(8w) (digit step verified exhaustively, relying on the loop treating every digit alike) and the shifts given the amount big.Int reports are decided. The products and quotients computed by math/big (Mul, Div), division by zero and the conversion of big.Int results are numerical and NOT decided; that lessEval selects the branch Ltu names is C09.allconst",
          "trusts go/ssa and the walker's byte-buffer model", "§4 C10"),
  "C11": ("term extraction from SSA (the expression a gadget builds, helpers inlined) and three symbolic arguments over that term: per-bit truth tables for Nand-only terms, polynomial normal form over Z/2^(8w) for Add/Mul/complement terms (quotient as an atom), case analysis (operand zero / non-zero; a<b, a=b, a>b) for selections comparing with 0, 1 or the operands; four gadgets decided relative to an inner gadget kept as a node (Les on Lts, SignedMul on SignExtend, IntNegative and Abs on the sign mask); bitMask walked concretely (typed integer arithmetic) for every width and every count up to 72 positions beyond the largest width",
-         "14 of the gadgets are decided for every width and every operand value: BitNot, BitAnd, BitOr, BitXor, Ones (bitwise), Negate, Sub, NewWidthGadget, Mod incl. divisor zero (ring), Bool, Not, BoolCond, Eq, Leu (cases); Les relative to Lts, SignedMul relative to SignExtend, IntNegative and Abs on the sign mask, which is itself decided by a walk over all 255 widths. Lts by a case analysis over the two top bits and the unsigned order (8 cases), SignExtend per bit in three position classes. MaskBits = BitAnd(e, bitMask(cnt, w)) with bitMask walked for all 255 widths and every count 0..2112 (538,815 walks): a constant 2^cnt-1 that fits the width, or Sub(Lsh(1,cnt),1) (all ones from the width upwards). NOT decided: SignedDiv, SignedMod, RshA (their meaning depends on sign bits and masks that vary with the width) and the meaning of the IR operators themselves (C10)",
+         "14 of the gadgets are decided for every width and every operand value: BitNot, BitAnd, BitOr, BitXor, Ones (bitwise), Negate, Sub, NewWidthGadget, Mod incl. divisor zero (ring), Bool, Not, BoolCond, Eq, Leu (cases); Les relative to Lts, SignedMul relative to SignExtend, IntNegative and Abs on the sign mask, which is itself decided by a walk over all 255 widths. Lts by a case analysis over the two top bits and the unsigned order (8 cases), SignExtend per bit in three position classes. MaskBits = BitAnd(e, bitMask(cnt, w)) with bitMask walked for all 255 widths and every count 0..2112 (538,815 walks): a constant 2^min(cnt,8w)-1 (min(cnt,8w) <= 64), or Sub(Lsh(1,cnt),1) (all ones from the width upwards). NOT decided: SignedDiv, SignedMod, RshA (their meaning depends on sign bits and masks that vary with the width) and the meaning of the IR operators themselves (C10)",
          "trusts go/ssa; relies on C10 for Add/Mul/Div/Nand at width w being the ring operations, the bitwise complement-and, and all ones on division by zero", "§4 C11"),
  "C12": ("decision table of dropUselessWidthGadget by CFG walk over the 13 weak orderings of (context, gadget, argument) widths against gadget >= min(arg, w); setWidth walked per node type; purgeWidthGadgetsKeepWidth walked over gadget chains; WidthGadgetArg walked over the 16 shape combinations; context-width agreement of every prune call site",
          "the width-gadget decision function is decided exhaustively; pruning contexts are the consuming widths; addresses are never pruned in a narrowing context; setWidth re-makes only Const and narrowed RegLoad",
